@@ -196,6 +196,10 @@ def build(r):
         return ht.TagList(*kids)
     if k == "tag":
         return build_tag(r)
+    if k == "bad":
+        t = r["t"]
+        return {"object": object, "dict": lambda: {"a": 1}, "bytes": lambda: b"xy", "set": lambda: {1, 2},
+                "range": lambda: range(2), "complex": lambda: 1j, "type": lambda: int}[t]()
     raise ValueError(k)
 
 
